@@ -43,7 +43,8 @@ type Case struct {
 	D     time.Duration // < 0: already expired
 	// Prelude, if set, is an earlier call on the same connection (and session)
 	// that failed just before the measured one: "timed-out" (its replies were
-	// lost) or "expired-context" (it was made with an expired context).
+	// lost), "expired-context" (it was made with an expired context) or
+	// "failed-close" (a Close whose replies were lost).
 	Prelude string
 }
 
@@ -192,7 +193,9 @@ func runOnce(c Case, seed uint64) (outcome, error) {
 		pdone := make(chan struct{})
 		go func() {
 			defer close(pdone)
-			if withSession {
+			if c.Prelude == "failed-close" {
+				perr = e.sess.Close(pctx)
+			} else if withSession {
 				_, perr = e.sess.GetDeviceID(pctx)
 			} else {
 				_, perr = e.t.GetSystemGUID(pctx)
@@ -283,6 +286,9 @@ func judge(c Case, seed uint64) (msg string, nontrivial bool, inconclusive bool)
 			// the fault persists from step k on, so no valid final response can have arrived
 			return fmt.Sprintf("%v: call reported success although every reply from step %d on was faulted", c, c.K), o.reached, false
 		}
+		if o.err == nil && c.D >= 0 && o.valid == 0 && c.Fault != "none" {
+			return fmt.Sprintf("%v: call reported success although the BMC sent no valid reply during it", c), true, false
+		}
 		if o.err == nil && c.D < 0 {
 			return fmt.Sprintf("%v: call with an already expired context reported success", c), o.reached, false
 		}
@@ -352,6 +358,11 @@ func cases() []Case {
 			out = append(out, Case{Call: call, Fault: "blackhole", K: 0, T: 400 * time.Millisecond, D: 100 * time.Millisecond, Prelude: pre},
 				Case{Call: call, Fault: "garbage", K: 0, T: 300 * time.Millisecond, D: 150 * time.Millisecond, Prelude: pre})
 		}
+	}
+	// closing again after a close that failed: the second close is a blocking call
+	// like any other and cannot succeed against a silent BMC
+	for _, f := range []string{"blackhole", "garbage"} {
+		out = append(out, Case{Call: "close", Fault: f, K: 0, T: 150 * time.Millisecond, D: 400 * time.Millisecond, Prelude: "failed-close"})
 	}
 	return out
 }
@@ -436,7 +447,7 @@ func TestDeadlines(t *testing.T) {
 }
 
 func TestCoverage(t *testing.T) {
-	need := []string{"deadlines-complete"}
+	need := []string{"deadlines-complete", "after-failed-call:close:failed-close"}
 	for _, call := range []string{"sessionless", "newsession", "insession", "close", "sdr", "dcmi"} {
 		need = append(need, "after-failed-call:"+call+":timed-out", "after-failed-call:"+call+":expired-context", "control:"+call, "fault:"+call+":blackhole", "fault:"+call+":garbage", "fault:"+call+":garbage-then-blackhole")
 	}
